@@ -1,0 +1,707 @@
+//! Thin wrappers around the crate-private bit I/O, data series encodings, compression header and
+//! record codec for the verification harness (`--cfg noodles_verif`).
+
+use std::io;
+
+use noodles_core::Position;
+use noodles_sam::alignment::{
+    record::{MappingQuality, data::field::Tag},
+    record_buf::data::field::Value,
+};
+
+use crate::{
+    container::{
+        CompressionHeader, ReferenceSequenceContext, block,
+        compression_header::{
+            Encoding,
+            encoding::codec::{Byte, ByteArray, Integer},
+            preservation_map::substitution_matrix::Base,
+        },
+    },
+    io::{
+        BitReader, BitWriter,
+        reader::container::{
+            compression_header::verif as rch,
+            slice::records::{ExternalDataReaders, Records},
+        },
+        writer::{
+            self,
+            container::{
+                compression_header::verif as wch,
+                slice::records::{ExternalDataWriters, Writer},
+            },
+        },
+    },
+    record::{Feature, Flags, MateFlags},
+};
+
+/// Writes `(value, len)` pairs with `BitWriter::write_u32` and finishes the writer.
+pub fn bit_write(ops: &[(u32, usize)]) -> io::Result<Vec<u8>> {
+    let mut writer = BitWriter::default();
+
+    for &(value, len) in ops {
+        writer.write_u32(value, len)?;
+    }
+
+    writer.finish()
+}
+
+/// Runs `read_bit` (`None`) and `read_i32(len)` (`Some(len)`) calls on one `BitReader`.
+pub fn bit_read(src: &[u8], ops: &[Option<u32>]) -> Vec<io::Result<i32>> {
+    let mut reader = BitReader::new(src);
+
+    ops.iter()
+        .map(|op| match op {
+            None => reader.read_bit().map(i32::from),
+            Some(len) => reader.read_i32(*len),
+        })
+        .collect()
+}
+
+#[derive(Clone, Copy, Debug, Eq, PartialEq)]
+pub enum Kind {
+    Integer,
+    Byte,
+    ByteArray,
+}
+
+/// A data series encoding of any value type.
+#[derive(Clone, Debug, Eq, PartialEq)]
+pub enum AnyEncoding {
+    Integer(Encoding<Integer>),
+    Byte(Encoding<Byte>),
+    ByteArray(Encoding<ByteArray>),
+}
+
+impl AnyEncoding {
+    /// Reads the parameters of an encoding. Returns the encoding and the number of bytes read.
+    pub fn read(kind: Kind, src: &[u8]) -> io::Result<(Self, usize)> {
+        let mut rest = src;
+
+        let encoding = match kind {
+            Kind::Integer => rch::read_integer_encoding(&mut rest).map(Self::Integer)?,
+            Kind::Byte => rch::read_byte_encoding(&mut rest).map(Self::Byte)?,
+            Kind::ByteArray => rch::read_byte_array_encoding(&mut rest).map(Self::ByteArray)?,
+        };
+
+        Ok((encoding, src.len() - rest.len()))
+    }
+
+    /// Writes the parameters of the encoding.
+    pub fn write(&self) -> io::Result<Vec<u8>> {
+        let mut dst = Vec::new();
+
+        match self {
+            Self::Integer(encoding) => wch::write_integer_encoding(&mut dst, encoding)?,
+            Self::Byte(encoding) => wch::write_byte_encoding(&mut dst, encoding)?,
+            Self::ByteArray(encoding) => wch::write_byte_array_encoding(&mut dst, encoding)?,
+        }
+
+        Ok(dst)
+    }
+}
+
+#[derive(Clone, Debug, Eq, PartialEq)]
+pub enum Val {
+    Int(i32),
+    Byte(u8),
+    Bytes(Vec<u8>),
+}
+
+/// Decodes one value per op from one core data reader and one set of external data readers.
+///
+/// An op is the index of the encoding and, for a byte encoding, `Some(len)` to call
+/// `Byte::decode_take(len)`. Decoding stops after the first error. Also returns the number of
+/// unread bytes of each external block.
+#[allow(clippy::type_complexity)]
+pub fn decode_values(
+    encodings: &[AnyEncoding],
+    core_data: &[u8],
+    external_data: &[(block::ContentId, Vec<u8>)],
+    ops: &[(usize, Option<usize>)],
+) -> (Vec<io::Result<Val>>, Vec<(block::ContentId, usize)>) {
+    let mut core_data_reader = BitReader::new(core_data);
+    let mut external_data_readers = ExternalDataReaders::new();
+
+    for (id, src) in external_data {
+        external_data_readers.insert(*id, src);
+    }
+
+    let mut results = Vec::new();
+
+    for &(i, take) in ops {
+        let result = match (&encodings[i], take) {
+            (AnyEncoding::Integer(encoding), _) => encoding
+                .decode(&mut core_data_reader, &mut external_data_readers)
+                .map(Val::Int),
+            (AnyEncoding::Byte(encoding), None) => encoding
+                .decode(&mut core_data_reader, &mut external_data_readers)
+                .map(Val::Byte),
+            (AnyEncoding::Byte(encoding), Some(len)) => encoding
+                .get()
+                .decode_take(&mut core_data_reader, &mut external_data_readers, len)
+                .map(|buf| Val::Bytes(buf.into_owned())),
+            (AnyEncoding::ByteArray(encoding), _) => encoding
+                .decode(&mut core_data_reader, &mut external_data_readers)
+                .map(|buf| Val::Bytes(buf.into_owned())),
+        };
+
+        let is_err = result.is_err();
+        results.push(result);
+
+        if is_err {
+            break;
+        }
+    }
+
+    let mut ids: Vec<_> = external_data.iter().map(|(id, _)| *id).collect();
+    ids.sort_unstable();
+    ids.dedup();
+
+    let rest = ids
+        .into_iter()
+        .map(|id| {
+            let len = external_data_readers
+                .get_mut(&id)
+                .map_or(0, |src| src.len());
+            (id, len)
+        })
+        .collect();
+
+    (results, rest)
+}
+
+/// Encodes one value per op into one core data writer and one set of external data writers
+/// (one empty buffer per ID). A byte encoding given `Val::Bytes` calls `Byte::encode_extend`.
+#[allow(clippy::type_complexity)]
+pub fn encode_values(
+    encodings: &[AnyEncoding],
+    external_ids: &[block::ContentId],
+    ops: &[(usize, Val)],
+) -> io::Result<(Vec<u8>, Vec<(block::ContentId, Vec<u8>)>)> {
+    let mut core_data_writer = BitWriter::default();
+
+    let mut external_data_writers: ExternalDataWriters =
+        external_ids.iter().map(|id| (*id, Vec::new())).collect();
+
+    for (i, value) in ops {
+        match (&encodings[*i], value) {
+            (AnyEncoding::Integer(encoding), Val::Int(n)) => {
+                encoding.encode(&mut core_data_writer, &mut external_data_writers, *n)?
+            }
+            (AnyEncoding::Byte(encoding), Val::Byte(b)) => {
+                encoding.encode(&mut core_data_writer, &mut external_data_writers, *b)?
+            }
+            (AnyEncoding::Byte(encoding), Val::Bytes(buf)) => encoding.get().encode_extend(
+                &mut core_data_writer,
+                &mut external_data_writers,
+                buf,
+            )?,
+            (AnyEncoding::ByteArray(encoding), Val::Bytes(buf)) => {
+                encoding.encode(&mut core_data_writer, &mut external_data_writers, buf)?
+            }
+            _ => {
+                return Err(io::Error::new(
+                    io::ErrorKind::Other,
+                    "value type does not match the encoding",
+                ));
+            }
+        }
+    }
+
+    let mut external_data: Vec<_> = external_data_writers.into_iter().collect();
+    external_data.sort_unstable();
+
+    Ok((core_data_writer.finish()?, external_data))
+}
+
+/// Reads a compression header from the data of a compression header block.
+pub fn read_compression_header(src: &[u8]) -> io::Result<CompressionHeader> {
+    rch::read_compression_header_inner(&mut &src[..])
+}
+
+/// Writes the data of a compression header block.
+pub fn write_compression_header(compression_header: &CompressionHeader) -> io::Result<Vec<u8>> {
+    let mut dst = Vec::new();
+    crate::io::writer::container::compression_header::write_compression_header(
+        &mut dst,
+        compression_header,
+    )?;
+    Ok(dst)
+}
+
+/// The fields of a compression header (encodings as their `Debug` rendering; the tag encodings
+/// sorted by block content ID).
+#[derive(Clone, Debug, Eq, PartialEq)]
+pub struct CompressionHeaderFields {
+    pub records_have_names: bool,
+    pub alignment_starts_are_deltas: bool,
+    pub external_reference_sequence_is_required: bool,
+    pub substitution_matrix: String,
+    pub tag_sets: Vec<Vec<[u8; 3]>>,
+    pub data_series_encodings: String,
+    pub tag_encodings: Vec<(block::ContentId, String)>,
+}
+
+pub fn compression_header_fields(
+    compression_header: &CompressionHeader,
+) -> CompressionHeaderFields {
+    use noodles_bam::record::codec::encoder::data::field::ty::encode;
+
+    let preservation_map = compression_header.preservation_map();
+
+    let tag_sets = preservation_map
+        .tag_sets()
+        .iter()
+        .map(|keys| {
+            keys.iter()
+                .map(|key| {
+                    let [l, r]: [u8; 2] = key.tag().into();
+                    [l, r, encode(key.ty())]
+                })
+                .collect()
+        })
+        .collect();
+
+    let mut tag_encodings: Vec<_> = compression_header
+        .tag_encodings()
+        .iter()
+        .map(|(id, encoding)| (*id, format!("{encoding:?}")))
+        .collect();
+
+    tag_encodings.sort_unstable();
+
+    CompressionHeaderFields {
+        records_have_names: preservation_map.records_have_names(),
+        alignment_starts_are_deltas: preservation_map.alignment_starts_are_deltas(),
+        external_reference_sequence_is_required: preservation_map
+            .external_reference_sequence_is_required(),
+        substitution_matrix: format!("{:?}", preservation_map.substitution_matrix()),
+        tag_sets,
+        data_series_encodings: format!("{:?}", compression_header.data_series_encodings()),
+        tag_encodings,
+    }
+}
+
+/// A slice reference sequence context: `-1` is unmapped, `-2` is many.
+fn reference_sequence_context(
+    reference_sequence_id: i32,
+    alignment_start: usize,
+    alignment_end: usize,
+) -> io::Result<ReferenceSequenceContext> {
+    fn position(n: usize) -> io::Result<Position> {
+        Position::try_from(n).map_err(|e| io::Error::new(io::ErrorKind::InvalidInput, e))
+    }
+
+    match reference_sequence_id {
+        -1 => Ok(ReferenceSequenceContext::None),
+        -2 => Ok(ReferenceSequenceContext::Many),
+        id => Ok(ReferenceSequenceContext::some(
+            usize::try_from(id).map_err(|e| io::Error::new(io::ErrorKind::InvalidInput, e))?,
+            position(alignment_start)?,
+            position(alignment_end)?,
+        )),
+    }
+}
+
+#[derive(Clone, Debug, Eq, PartialEq)]
+pub enum VFeature {
+    Bases {
+        position: usize,
+        bases: Vec<u8>,
+    },
+    Scores {
+        position: usize,
+        quality_scores: Vec<u8>,
+    },
+    ReadBase {
+        position: usize,
+        base: u8,
+        quality_score: u8,
+    },
+    Substitution {
+        position: usize,
+        code: u8,
+    },
+    Insertion {
+        position: usize,
+        bases: Vec<u8>,
+    },
+    Deletion {
+        position: usize,
+        len: usize,
+    },
+    InsertBase {
+        position: usize,
+        base: u8,
+    },
+    QualityScore {
+        position: usize,
+        quality_score: u8,
+    },
+    ReferenceSkip {
+        position: usize,
+        len: usize,
+    },
+    SoftClip {
+        position: usize,
+        bases: Vec<u8>,
+    },
+    Padding {
+        position: usize,
+        len: usize,
+    },
+    HardClip {
+        position: usize,
+        len: usize,
+    },
+}
+
+/// The fields of a record the record codec reads or writes.
+///
+/// A data field is its tag, and either its value (`data`, given to the writer) or its type and
+/// the BAM encoding of its value (`encoded_data`, returned by the reader).
+#[derive(Clone, Debug, Default, PartialEq)]
+pub struct VRecord {
+    pub bam_flags: u16,
+    pub cram_flags: u8,
+    pub reference_sequence_id: Option<usize>,
+    pub read_length: usize,
+    pub alignment_start: Option<usize>,
+    pub read_group_id: Option<usize>,
+    pub name: Option<Vec<u8>>,
+    pub mate_flags: u8,
+    pub mate_reference_sequence_id: Option<usize>,
+    pub mate_alignment_start: Option<usize>,
+    pub template_length: i32,
+    pub mate_distance: Option<usize>,
+    pub data: Vec<([u8; 2], Value)>,
+    pub encoded_data: Vec<([u8; 2], u8, Vec<u8>)>,
+    pub features: Vec<VFeature>,
+    pub mapping_quality: Option<u8>,
+    pub sequence: Vec<u8>,
+    pub quality_scores: Vec<u8>,
+}
+
+fn to_writer_feature(
+    compression_header: &CompressionHeader,
+    feature: &VFeature,
+) -> io::Result<writer::record::Feature> {
+    use writer::record::Feature as F;
+
+    fn position(n: usize) -> io::Result<Position> {
+        Position::try_from(n).map_err(|e| io::Error::new(io::ErrorKind::InvalidInput, e))
+    }
+
+    Ok(match feature {
+        VFeature::Bases { position: p, bases } => F::Bases {
+            position: position(*p)?,
+            bases: bases.clone(),
+        },
+        VFeature::Scores {
+            position: p,
+            quality_scores,
+        } => F::Scores {
+            position: position(*p)?,
+            quality_scores: quality_scores.clone(),
+        },
+        VFeature::ReadBase {
+            position: p,
+            base,
+            quality_score,
+        } => F::ReadBase {
+            position: position(*p)?,
+            base: *base,
+            quality_score: *quality_score,
+        },
+        VFeature::Substitution { position: p, code } => {
+            // The writer holds the pair of bases `SubstitutionMatrix::find` maps to the code.
+            let reference_base = Base::A;
+
+            let read_base = compression_header
+                .preservation_map()
+                .substitution_matrix()
+                .get(reference_base, *code);
+
+            F::Substitution {
+                position: position(*p)?,
+                reference_base,
+                read_base,
+            }
+        }
+        VFeature::Insertion { position: p, bases } => F::Insertion {
+            position: position(*p)?,
+            bases: bases.clone(),
+        },
+        VFeature::Deletion { position: p, len } => F::Deletion {
+            position: position(*p)?,
+            len: *len,
+        },
+        VFeature::InsertBase { position: p, base } => F::InsertBase {
+            position: position(*p)?,
+            base: *base,
+        },
+        VFeature::QualityScore {
+            position: p,
+            quality_score,
+        } => F::QualityScore {
+            position: position(*p)?,
+            quality_score: *quality_score,
+        },
+        VFeature::ReferenceSkip { position: p, len } => F::ReferenceSkip {
+            position: position(*p)?,
+            len: *len,
+        },
+        VFeature::SoftClip { position: p, bases } => F::SoftClip {
+            position: position(*p)?,
+            bases: bases.clone(),
+        },
+        VFeature::Padding { position: p, len } => F::Padding {
+            position: position(*p)?,
+            len: *len,
+        },
+        VFeature::HardClip { position: p, len } => F::HardClip {
+            position: position(*p)?,
+            len: *len,
+        },
+    })
+}
+
+fn from_reader_feature(feature: &Feature<'_>) -> VFeature {
+    let position = usize::from(feature.position());
+
+    match feature {
+        Feature::Bases { bases, .. } => VFeature::Bases {
+            position,
+            bases: bases.to_vec(),
+        },
+        Feature::Scores { quality_scores, .. } => VFeature::Scores {
+            position,
+            quality_scores: quality_scores.to_vec(),
+        },
+        Feature::ReadBase {
+            base,
+            quality_score,
+            ..
+        } => VFeature::ReadBase {
+            position,
+            base: *base,
+            quality_score: *quality_score,
+        },
+        Feature::Substitution { code, .. } => VFeature::Substitution {
+            position,
+            code: *code,
+        },
+        Feature::Insertion { bases, .. } => VFeature::Insertion {
+            position,
+            bases: bases.to_vec(),
+        },
+        Feature::Deletion { len, .. } => VFeature::Deletion {
+            position,
+            len: *len,
+        },
+        Feature::InsertBase { base, .. } => VFeature::InsertBase {
+            position,
+            base: *base,
+        },
+        Feature::QualityScore { quality_score, .. } => VFeature::QualityScore {
+            position,
+            quality_score: *quality_score,
+        },
+        Feature::ReferenceSkip { len, .. } => VFeature::ReferenceSkip {
+            position,
+            len: *len,
+        },
+        Feature::SoftClip { bases, .. } => VFeature::SoftClip {
+            position,
+            bases: bases.to_vec(),
+        },
+        Feature::Padding { len, .. } => VFeature::Padding {
+            position,
+            len: *len,
+        },
+        Feature::HardClip { len, .. } => VFeature::HardClip {
+            position,
+            len: *len,
+        },
+    }
+}
+
+fn to_writer_record(
+    compression_header: &CompressionHeader,
+    record: &VRecord,
+) -> io::Result<writer::Record> {
+    fn position(n: Option<usize>) -> io::Result<Option<Position>> {
+        n.map(|n| Position::try_from(n).map_err(|e| io::Error::new(io::ErrorKind::InvalidInput, e)))
+            .transpose()
+    }
+
+    Ok(writer::Record {
+        bam_flags: noodles_sam::alignment::record::Flags::from_bits_retain(record.bam_flags),
+        cram_flags: Flags::from_bits_retain(record.cram_flags),
+        reference_sequence_id: record.reference_sequence_id,
+        read_length: record.read_length,
+        alignment_start: position(record.alignment_start)?,
+        read_group_id: record.read_group_id,
+        name: record.name.clone().map(Into::into),
+        mate_flags: MateFlags::from_bits_retain(record.mate_flags),
+        mate_reference_sequence_id: record.mate_reference_sequence_id,
+        mate_alignment_start: position(record.mate_alignment_start)?,
+        template_length: record.template_length,
+        mate_distance: record.mate_distance,
+        data: record
+            .data
+            .iter()
+            .map(|(tag, value)| (Tag::new(tag[0], tag[1]), value.clone()))
+            .collect(),
+        features: record
+            .features
+            .iter()
+            .map(|feature| to_writer_feature(compression_header, feature))
+            .collect::<io::Result<_>>()?,
+        mapping_quality: record.mapping_quality.and_then(MappingQuality::new),
+        sequence: record.sequence.clone(),
+        quality_scores: record.quality_scores.clone(),
+    })
+}
+
+fn from_reader_record(record: &crate::Record<'_>) -> io::Result<VRecord> {
+    use noodles_bam::record::codec::encoder::data::field::{ty::encode, write_value};
+
+    let mut encoded_data = Vec::new();
+
+    for (tag, value) in &record.data {
+        use noodles_sam::alignment::record::data::field::Value;
+
+        let value = Value::from(value);
+        let mut buf = Vec::new();
+
+        // The BAM encoder validates strings, which a decoded value need not pass.
+        match &value {
+            Value::String(s) | Value::Hex(s) => {
+                buf.extend_from_slice(s);
+                buf.push(0x00);
+            }
+            _ => write_value(&mut buf, &value)?,
+        }
+        encoded_data.push(((*tag).into(), encode(value.ty()), buf));
+    }
+
+    Ok(VRecord {
+        bam_flags: record.bam_flags.bits(),
+        cram_flags: record.cram_flags.bits(),
+        reference_sequence_id: record.reference_sequence_id,
+        read_length: record.read_length,
+        alignment_start: record.alignment_start.map(usize::from),
+        read_group_id: record.read_group_id,
+        name: record.name.as_ref().map(|name| name.to_vec()),
+        mate_flags: record.mate_flags.bits(),
+        mate_reference_sequence_id: record.mate_reference_sequence_id,
+        mate_alignment_start: record.mate_alignment_start.map(usize::from),
+        template_length: record.template_length,
+        mate_distance: record.mate_distance,
+        data: Vec::new(),
+        encoded_data,
+        features: record.features.iter().map(from_reader_feature).collect(),
+        mapping_quality: record.mapping_quality.map(u8::from),
+        sequence: record.sequence.to_vec(),
+        quality_scores: record.quality_scores.to_vec(),
+    })
+}
+
+/// Writes records with `slice::records::Writer::write_record` into one empty buffer per external
+/// ID. The reference sequence context is `(-1, _, _)` (unmapped), `(-2, _, _)` (many) or
+/// `(id, start, end)`. Returns the core data and the external data sorted by ID.
+#[allow(clippy::type_complexity)]
+pub fn write_records(
+    compression_header: &CompressionHeader,
+    (reference_sequence_id, alignment_start, alignment_end): (i32, usize, usize),
+    external_ids: &[block::ContentId],
+    records: &[VRecord],
+) -> io::Result<(Vec<u8>, Vec<(block::ContentId, Vec<u8>)>)> {
+    let reference_sequence_context =
+        reference_sequence_context(reference_sequence_id, alignment_start, alignment_end)?;
+
+    let mut core_data_writer = BitWriter::default();
+
+    let mut external_data_writers: ExternalDataWriters =
+        external_ids.iter().map(|id| (*id, Vec::new())).collect();
+
+    let mut writer = Writer::new(
+        compression_header,
+        &mut core_data_writer,
+        &mut external_data_writers,
+        reference_sequence_context,
+    );
+
+    for record in records {
+        let record = to_writer_record(compression_header, record)?;
+        writer.write_record(&record)?;
+    }
+
+    let mut external_data: Vec<_> = external_data_writers.into_iter().collect();
+    external_data.sort_unstable();
+
+    Ok((core_data_writer.finish()?, external_data))
+}
+
+/// Reads `record_count` records with `slice::records::Records::read_record`.
+pub fn read_records(
+    compression_header: &CompressionHeader,
+    (reference_sequence_id, alignment_start, alignment_end): (i32, usize, usize),
+    core_data: &[u8],
+    external_data: &[(block::ContentId, Vec<u8>)],
+    record_count: usize,
+) -> io::Result<Vec<VRecord>> {
+    let reference_sequence_context =
+        reference_sequence_context(reference_sequence_id, alignment_start, alignment_end)?;
+
+    let core_data_reader = BitReader::new(core_data);
+    let mut external_data_readers = ExternalDataReaders::new();
+
+    for (id, src) in external_data {
+        external_data_readers.insert(*id, src);
+    }
+
+    let mut reader = Records::new(
+        compression_header,
+        core_data_reader,
+        external_data_readers,
+        reference_sequence_context,
+        0,
+    );
+
+    let mut records = Vec::new();
+
+    for _ in 0..record_count {
+        let mut record = crate::Record::default();
+        reader.read_record(&mut record)?;
+        records.push(from_reader_record(&record)?);
+    }
+
+    Ok(records)
+}
+
+/// The reference sequence context the slice writer computes for the records.
+pub fn get_reference_sequence_context(
+    compression_header: &CompressionHeader,
+    records: &[VRecord],
+) -> io::Result<(i32, usize, usize)> {
+    let records: Vec<_> = records
+        .iter()
+        .map(|record| to_writer_record(compression_header, record))
+        .collect::<io::Result<_>>()?;
+
+    Ok(
+        match writer::container::slice::verif_get_reference_sequence_context(&records) {
+            ReferenceSequenceContext::Some(context) => (
+                i32::try_from(context.reference_sequence_id())
+                    .map_err(|e| io::Error::new(io::ErrorKind::InvalidInput, e))?,
+                usize::from(context.alignment_start()),
+                usize::from(context.alignment_end()),
+            ),
+            ReferenceSequenceContext::None => (-1, 0, 0),
+            ReferenceSequenceContext::Many => (-2, 0, 0),
+        },
+    )
+}
